@@ -32,6 +32,9 @@ prop("C17",
      level_note="Trusted: Kani/CBMC translation of MIR, cadical/z3. Slices bounded to 10 bytes, programs to 5 operations.",
      mir=None, jobs=12, timeout=300)
 
+prop("C07", claimed=False, jobs=8, timeout=600, mir=None, level_text="", level_note="")
+prop("C08", claimed=False, jobs=12, timeout=600, mir=None, level_text="", level_note="")
+
 
 def bounds_of(prop_id, short):
     """human-readable bound of one harness, derived from its name suffixes"""
